@@ -276,6 +276,10 @@ func sweepBody(cfg sweepCfg, prop string) vsched.Body {
 				if !r.wrote {
 					continue
 				}
+				if enc := r.Hdr.Get("Content-Encoding"); enc != "" && prop == "C01" && !acceptNames(r.Req.Header.Get("Accept-Encoding"))[enc] {
+					// a client can only undo a content coding it offered
+					fail("response-coding-not-offered[%s %s]: the response is coded with %q, the request offered %q: the client cannot recover the messages (%s)", car.kind, enc, enc, r.Req.Header.Get("Accept-Encoding"), cfg.id())
+				}
 				if (car.b64 || car.eio == 4) && strings.HasPrefix(r.Hdr.Get("Content-Type"), "application/octet-stream") {
 					fail("binary-body-in-base64-mode%s: binary payload sent to a client that cannot take one (%s)", fp, cfg.id())
 				}
